@@ -32,8 +32,11 @@ def shuffle_class_maps(rng, spec, doc, t):
         pairs = list(doc[1])
         keys = [p[0][1] if p[0][0] == 's' else None for p in pairs]
         if len(set(keys)) == len(keys):       # distinct keys: order carries no meaning ...
-            pnames = {p['name'] for c in spec for p in c.get('params', [])}
-            pnames |= {n.replace('_', '-') for n in pnames}
+            # movable: the parameters of the declared class (every class the mapping can be loaded as
+            # inherits them); any other key may end up among the extra attributes of one of them
+            pnames = {p['name'] for p in by[t[1]].get('params', [])}
+            # (a dashed spelling is an *extra* attribute unless a savorize hook renames it: it keeps its place
+            # among the others)
             others = [p for p in pairs if p[0][0] != 's' or p[0][1] not in pnames]
             rng.shuffle(pairs)
             # ... except among extra attributes, which arrive as an *ordered* mapping
@@ -52,6 +55,25 @@ def shuffle_class_maps(rng, spec, doc, t):
     if doc[0] == 'q' and k == 'seq':
         return ('q', [shuffle_class_maps(rng, spec, x, t[2]) for x in doc[1]], doc[2])
     return doc
+
+
+def canon_value(v):
+    """a loaded value up to the order of the keys of plain dicts (OrderedDicts keep theirs), NaN = NaN"""
+    from collections import OrderedDict
+    if isinstance(v, float) and v != v:
+        return ('nan',)
+    if isinstance(v, OrderedDict):
+        return ('odict', [(canon_value(k), canon_value(x)) for k, x in v.items()])
+    if isinstance(v, dict):
+        return ('dict', sorted(((canon_value(k), canon_value(x)) for k, x in v.items()), key=repr))
+    if isinstance(v, (list, tuple)):
+        return ('list', [canon_value(x) for x in v])
+    if hasattr(v, '__dict__') and not isinstance(v, type) and type(v).__module__ not in ('builtins', 'pathlib', 'datetime', 'enum'):
+        import enum
+        if isinstance(v, enum.Enum):
+            return ('enum', type(v).__name__, v.name)
+        return ('obj', type(v).__name__, canon_value(dict(vars(v))) if not isinstance(v, str) else str(v))
+    return (type(v).__name__, repr(v))
 
 
 def swap_kinds(t, rng):
@@ -112,6 +134,21 @@ def base_outcome(c):
     return ('other', c.real_out[1].split(':')[0])
 
 
+def tree_copy(yaml, node, above):
+    """the node graph as a tree (no object shared); RecursionError for a cyclic document"""
+    if any(node is a for a in above):
+        raise RecursionError('cyclic document')
+    above = above + (node,)
+    if isinstance(node, yaml.ScalarNode):
+        return yaml.ScalarNode(node.tag, node.value, node.start_mark, node.end_mark, style=node.style)
+    if isinstance(node, yaml.SequenceNode):
+        return yaml.SequenceNode(node.tag, [tree_copy(yaml, x, above) for x in node.value],
+                                 node.start_mark, node.end_mark, flow_style=node.flow_style)
+    return yaml.MappingNode(node.tag, [(tree_copy(yaml, k, above), tree_copy(yaml, v, above))
+                                       for k, v in node.value],
+                            node.start_mark, node.end_mark, flow_style=node.flow_style)
+
+
 def restyle(yaml, node, style):
     kw = dict(Dumper=yaml.SafeDumper, allow_unicode=True, width=1000)
     if style == 'canonical':
@@ -153,6 +190,17 @@ def explore(ctx):
             for p in rng.sample(sc, min(len(sc), rng.randint(1, 2))):
                 tag = rng.choice(['!Celsius', '!Unknown', '!Unrelated'])
                 doc = G.replace_at(doc, p, lambda d: G.with_tag(d, tag))
+            if rng.random() < 0.4:
+                # ... and on a mapping that is read as a class: the name of a class that the
+                # "unrelated class" transformation will register
+                try:
+                    from props import c17
+                    maps = c17.class_map_paths(c.spec, doc, c.doc_type)
+                except Exception:  # noqa
+                    maps = []
+                if maps:
+                    p = rng.choice(maps)
+                    doc = G.replace_at(doc, p, lambda d: G.with_tag(d, '!Unrelated'))
             try:
                 c2 = L.build_case(rng, yaml, yatiml, c.spec, c.doc_type, doc, ('apptags',))
                 L.run_case(c2, yaml)
@@ -165,6 +213,8 @@ def explore(ctx):
         if base[0] == 'other':
             continue
         which = rng.sample(['keys', 'style', 'style', 'unrelated', 'kinds', 'boolfix'], 3)
+        if '!Unrelated' in c.text and 'unrelated' not in which:
+            which.append('unrelated')
         for tr in which:
             text2, spec2, t2 = c.text, c.spec, c.doc_type
             extra_cls = []
@@ -173,11 +223,16 @@ def explore(ctx):
                     continue        # reordering could put an alias before its anchor
                 text2 = G.render(shuffle_class_maps(rng, c.spec, c.doc, c.doc_type))
             elif tr == 'style':
-                if c.node is None or getattr(c, 'shared', False) or getattr(c, 'empty', False):
+                if c.node is None or getattr(c, 'empty', False):
                     continue
                 style = rng.choice(['block', 'flow', 'quoted', 'canonical', 'json'])
                 try:
-                    text2 = restyle(yaml, c.node, style)
+                    src = c.node
+                    if getattr(c, 'shared', False):
+                        # a document with aliases: the rendering writes every alias out as a copy
+                        src = tree_copy(yaml, c.node, ())
+                        style = 'expanded-' + style
+                    text2 = restyle(yaml, src, style.replace('expanded-', ''))
                     n2 = c.real.compose(text2)
                     import nodes as N
                     if n2 is None or N.canon_node(yaml, n2, marks=False) != N.canon_node(yaml, c.node, marks=False):
@@ -216,7 +271,7 @@ def explore(ctx):
                 # _yatiml_extra) compare equal whatever the order of their keys
                 try:
                     del c.model.log[:]
-                    if c.real.load(text2) == c.real_out[1]:
+                    if canon_value(c.real.load(text2)) == canon_value(c.real_out[1]):
                         ctx.count('keys_equal_up_to_plain_dict_order')
                         continue
                 except Exception:  # noqa
